@@ -13,6 +13,12 @@ func init() {
 		withRace(p, r, 6, func() { genMix(p, r, "C02") })
 	}
 	generators["C04"] = func(p *Plan, r *RNG) {
+		if r.Chance(1, 8) {
+			// TCP allocations of several clients with peers in common: a Connect is answered from
+			// the state of the allocation it arrived on (cross-talk what=connect)
+			genC16(p, r)
+			return
+		}
 		if r.Chance(1, 6) {
 			genC04XL(p, r)
 			return
